@@ -87,7 +87,7 @@ class ScriptedSweeper(generic_implicit):
         else:
             nans = bool(cfg.get('nan_answers'))
             ans = cur.ctx.choose(3 if nans else 2, f'conv b{cur.block} s{S.status.slot} c{S.status.iter}', cfg.get('conv_cost', 0))
-            conv = ans == 1
+            conv = (ans == 0) if (cfg.get('conv_flip') and ans != 2) else ans == 1  # conv_flip: the default answer is 'converged'
             if ans == 2:
                 # a residual that is not a number (right-hand side left its domain, inf - inf): not below any tolerance
                 cur.conv[key] = False
@@ -407,10 +407,13 @@ def build(cfg):
     if cfg.get('adaptive') is not None or cfg.get('restart_script'):
         import vf.env.adaptive  # noqa: F401  (registers the scripted controllers)
     if cfg.get('adaptive') is not None:
-        level_params['restol'] = -1.0
+        if not cfg.get('nonconv'):
+            level_params['restol'] = -1.0
         if cfg.get('adaptive_family') == 'polynomial':
-            # restart_at_maxiter off: with the fixed-sweep harness "converged" means "budget used up"
-            description['convergence_controllers'][resolve('ScriptedAdaptivityPolynomial')] = {'e_tol': 1.0, 'restart_at_maxiter': False, **cfg['adaptive']}
+            # restart_at_maxiter off: with the fixed-sweep harness "converged" means "budget used up"; with cfg['nonconv'] the
+            # residual answers are scripted against a positive tolerance and a step that uses up its budget with a residual
+            # above it is rejected as "collocation problem not converged"
+            description['convergence_controllers'][resolve('ScriptedAdaptivityPolynomial')] = {'e_tol': 1.0, 'restart_at_maxiter': bool(cfg.get('nonconv')), **cfg['adaptive']}
         else:
             description['convergence_controllers'][resolve('ScriptedAdaptivity')] = {'e_tol': 1.0, **cfg['adaptive']}
     if cfg.get('restarting') is not None:
